@@ -32,9 +32,19 @@ impl Parse for TypeWithPunctuatedMeta {
     }
 }
 
+/// Looks through the invisible group that wraps a type which comes from a `$t:ty` fragment of a `macro_rules!` macro.
+#[inline]
+pub(crate) fn ungroup(mut ty: &Type) -> &Type {
+    while let Type::Group(group) = ty {
+        ty = group.elem.as_ref();
+    }
+
+    ty
+}
+
 #[inline]
 pub(crate) fn dereference(ty: &Type) -> &Type {
-    if let Type::Reference(ty) = ty {
+    if let Type::Reference(ty) = ungroup(ty) {
         dereference(ty.elem.as_ref())
     } else {
         ty
@@ -43,7 +53,7 @@ pub(crate) fn dereference(ty: &Type) -> &Type {
 
 #[inline]
 pub(crate) fn dereference_changed(ty: &Type) -> (&Type, bool) {
-    if let Type::Reference(ty) = ty {
+    if let Type::Reference(ty) = ungroup(ty) {
         (dereference(ty.elem.as_ref()), true)
     } else {
         (ty, false)
